@@ -76,7 +76,7 @@ type c16Peer struct {
 // is reported (as a known finding) without costing the other runs.
 func c16NoLimitHuge(w *W) {
 	kind := []string{"pair", "pull", "rep", "sub", "bus"}[w.Choose(simrt.SShape, 5)]
-	tran := []string{"sim", "simipc"}[w.Choose(simrt.SShape, 2)]
+	tran := []string{"sim", "simipc", "tcp", "ipc"}[w.Choose(simrt.SShape, 4)] // tcp / ipc: the real listener code on the simulated network
 	w.SetShape("kind", kind)
 	w.SetShape("tran", tran)
 	w.SetShape("limit", 0)
@@ -85,8 +85,9 @@ func c16NoLimitHuge(w *W) {
 	s := w.Sock(kind)
 	defer s.Close()
 	mustSet(w, s, mangos.OptionMaxRecvSize, 0)
-	name := strings.TrimPrefix(w.Addr(tran), tran+"://")
-	if err := s.Listen(tran + "://" + name); err != nil {
+	laddr := w.Addr(tran)
+	name := NetKey(laddr)
+	if err := s.Listen(laddr); err != nil {
 		w.Failf("HARNESS/listen", "%v", err)
 		return
 	}
@@ -104,7 +105,7 @@ func c16NoLimitHuge(w *W) {
 	w.SetShape("announced", fmt.Sprintf("%#x", ann))
 	w.Fault("oversize")
 	w.Op("hostile: MaxRecvSize 0, announces %#x bytes", ann)
-	if tran == "simipc" {
+	if isIPCTran(tran) {
 		c.Write(lb[:])
 	} else {
 		c.Write(lb[1:])
@@ -120,8 +121,8 @@ func c16Run(w *W) {
 		return
 	}
 	kind := allKinds[w.Choose(simrt.SShape, len(allKinds))]
-	tran := []string{"sim", "simipc"}[w.Choose(simrt.SShape, 2)]
-	ipc := tran == "simipc"
+	tran := []string{"sim", "simipc", "tcp", "ipc"}[w.Choose(simrt.SShape, 4)] // tcp / ipc: the real listener code on the simulated network
+	ipc := isIPCTran(tran)
 	limits := []int{0, 16, 100, 1024, 1024 * 1024}
 	limit := limits[w.Choose(simrt.SShape, len(limits))]
 	nops := 4 + w.Choose(simrt.SShape, 12)
@@ -146,8 +147,9 @@ func c16Run(w *W) {
 			detached++
 		}
 	})
-	name := strings.TrimPrefix(w.Addr(tran), tran+"://")
-	if err := s.Listen(tran + "://" + name); err != nil {
+	laddr := w.Addr(tran)
+	name := NetKey(laddr)
+	if err := s.Listen(laddr); err != nil {
 		w.Failf("HARNESS/listen", "%v", err)
 		return
 	}
